@@ -582,6 +582,7 @@ type EncCfg struct {
 	Name     string `json:"name"`
 	Level    int    `json:"level"`
 	Caller   bool   `json:"caller"`
+	NoPC     bool   `json:"no_pc,omitempty"` // direct-oracle corpus only: the caller flag is on but the record comes with no frame (WriteThru with pc 0, a skip count beyond the stack)
 	TagWidth int    `json:"tag_width"`
 	MinWidth int    `json:"min_width"`
 }
@@ -664,7 +665,7 @@ func (rec EncRec) emit() [][]byte {
 	historyPrelude(len(rec.Msg)*13 + len(rec.Attrs)*5 + rec.Cfg.Level*3 + rec.Cfg.MinWidth)
 	events = nil
 	pc := uintptr(0)
-	if c.Caller {
+	if c.Caller && !c.NoPC {
 		pc = encCaller.PC
 	}
 	l.WriteThru(nil, slog.Level(c.Level), fixedTime, pc, rec.Msg, attrsGo(rec.Attrs))
